@@ -291,7 +291,7 @@ class MQTTBaseProtocol(Protocol):
         self._buffer     = bytearray()
         self._keepalive  = 0    # keepalive (in ms) disabled by default
         self._window     = 1    # Guarantees in-order delivery by default
-        self._cleanStart = True # No session by default
+        self._cleanStart = None # session mode is not known until connect() is called
         self._pingReq       = PINGREQ() 
         self._pingReq.timer = None
         self._pingReq.alarm = None
